@@ -57,4 +57,7 @@ Definition table_header_data (h : table_header) : bytes :=
   let d1 := N.lor d1 (N.land (w8 (N.shiftr (th_sl h) 8)) 3) in
   [th_tid h; d1; w8 (th_sl h)].
 
+(* NewTableHeader(): the zero TableHeader *)
+Definition new_table_header : table_header := {| th_tid := 0; th_ssi := false; th_pi := false; th_sl := 0 |}.
+
 End Psi.
